@@ -31,7 +31,7 @@ TECHNIQUE = "fault enumeration at every file operation (exception and fork+os._e
 RULE = (
     "Hypothesis draws store kind in {json, pickle, text, binary, touch, staged_write, staged_write_path}, path type, "
     "encoding, previous value (or none) and a different new value (1 in 5 with an unserialisable leaf). Every file-op index "
-    "k of the fault-free write x {oserror (one-shot EIO), perm (persistent PermissionError), kbi, exit} is executed. Non-trivial = a previous value exists and 0 < k < last. "
+    "k of the fault-free write x {oserror (one-shot EIO), perm (persistent PermissionError), kbi, exit} is executed, plus a short write at every write() (effective on raw files only), a nonexistent encoding, and for every k a complete write by a second store to a neighbouring file name of the same directory (same stem / prefix / other suffix) before operation k. Non-trivial = a previous value exists and 0 < k < last. "
     "Distinct = SHA-1 of (case, k, kind)."
 )
 ASSUMPTIONS = ["POSIX rename atomicity (os.replace) is trusted", "single writer per path"]
